@@ -21,6 +21,7 @@ import GscribModel.Drv.XformSrc
 import GscribModel.Drv.HeightSrc
 import GscribModel.Drv.SenderSrc
 import GscribModel.Drv.RecvSrc
+import GscribModel.Drv.GcoderSrc
 import GscribModel.Drv.DirectWriteSrc
 /-! Line-protocol driver: `driver <mode>` (or `lake env lean --run Driver.lean <mode>`) reads one
     case/operation per line on stdin and prints exactly one record per line (`bad-op …` for an
@@ -52,5 +53,6 @@ def main (args : List String) : IO UInt32 := do
   | ["heightsrc"] => HeightSrcDrv.main; return 0
   | ["sendersrc"] => SenderSrcDrv.main; return 0
   | ["recvsrc"] => RecvSrcDrv.main; return 0
+  | ["gcodersrc"] => GcoderSrcDrv.main; return 0
   | ["dwritesrc"] => DirectWriteSrcDrv.main; return 0
   | _ => IO.eprintln s!"unknown mode {args}"; return 2
